@@ -47,8 +47,32 @@ def c01_layouts(tier, seed):
     return Ls
 
 
+def c01_context_layouts(tier, access="r"):
+    """the same field alone in its struct, as the highest declared field below reserved bits, and with
+    another field declared above / below it: a getter must not depend on what else is declared"""
+    Ls = []
+    bases = NATIVE_BASES + (QUICK_ARB if tier == "quick" else ALL_ARB[::3])
+    for W in bases:
+        if W < 4:
+            continue
+        spots = sorted(set([0, 1, W // 2, W - 2]))
+        for lo in spots:
+            for ty in (T_bool(), T_uint(1)):
+                Ls.append(Layout(W, [Field("only", ty, [(lo, 1)], None, access)], tag=f"single {ty.decl_ty()} at bit {lo} as the only field of u{W}"))
+            Ls.append(Layout(W, [Field("low", T_uint(1), [(0, 1)], None, access), Field("flag", T_bool(), [(max(lo, 1), 1)], None, access)], tag=f"bool at bit {max(lo, 1)} as the highest declared field of u{W}"))
+            if lo + 1 < W - 1:
+                Ls.append(Layout(W, [Field("flag", T_bool(), [(lo, 1)], None, access), Field("above", T_bool(), [(W - 1, 1)], None, access)], tag=f"bool at bit {lo} with another field declared above it on u{W}"))
+        for w in (8, 16, 32, 64):
+            if w + 2 <= W:
+                for ty in (T_uint(w), T_int(w)):
+                    Ls.append(Layout(W, [Field("only", ty, [(1, w)], None, access)], tag=f"single {ty.decl_ty()} at bit 1 as the only field of u{W}"))
+        if W >= 8:
+            Ls.append(Layout(W, [Field("only", T_uint(3), [(2, 3)], None, access)], tag=f"single u3 as the only field of u{W}"))
+    return Ls
+
+
 def plan_c01(tier, seed):
-    Ls = c01_layouts(tier, seed)
+    Ls = c01_layouts(tier, seed) + c01_context_layouts(tier)
     us = units_from(Ls, lambda L: [H.h_get(L, f, "C01") for f in L.fields])
     # negative controls on three real layouts (first, middle, last)
     for k in (0, len(us) // 2, len(us) - 1):
@@ -156,7 +180,7 @@ def c02_extra_layouts(tier):
 
 
 def plan_c02(tier, seed):
-    Ls = c02_layouts(tier, seed)
+    Ls = c02_layouts(tier, seed) + [L for k, L in enumerate(c01_context_layouts(tier, access="rw")) if k % 2 == 0]
     nplain = len(Ls)
     Ls = Ls + c02_extra_layouts(tier)
     us = units_from(Ls, lambda L: [H.h_set(L, f, "C02") for f in L.fields])
